@@ -113,6 +113,12 @@ func C12(r *core.Run) int {
 		jobsA[i] = p.Job()
 		if p.Case.Family == "mapfat" {
 			jobsA[i].Repeat = K
+			if p.Case.ID == "alias-cycles-fat" {
+				// an order-dependent refusal shows in about one load of eight
+				// (measured with seeded change C12k): 6K repetitions leave
+				// (7/8)^48 < 0.2 % for a run that sees one verdict only
+				jobsA[i].Repeat = 6 * K
+			}
 		}
 	}
 	resA := r.RunJobs(vgen, jobsA, 1, 20*time.Second)
